@@ -20,7 +20,12 @@ PROP = dict(
                    "whose commas all lie inside its (nested) blocks reaches the processor whole (C16_arguments_cut_outside, C16_text_total) - tied by tag texts with arguments through the real NewProperty. "
                    "AS WRITTEN: the text a tag resolves to holds no placeholder, so the tag written with that text leaves the placeholder stage with the same TagVal under every configuration, "
                    "also from the tag text with the same arguments behind (C16_as_written, C16_as_written_text); that the LATER stages treat both alike is judged on real Apps: a field tagged T "
-                   "and a field tagged with the text T becomes when every placeholder is replaced by hand are started under the same configuration and must end the same way (oracle placeholder-as-written).",
+                   "and a field tagged with the text T becomes when every placeholder is replaced by hand are started under the same configuration and must end the same way (oracle placeholder-as-written). "
+                   "SOURCES MERGED AFTER THE START (ninth round): the library's default configure is a loader list and the viper binder itself (C16_code_configure_Default); SetConfig is viper's mergeMaps "
+                   "into what the binder holds, AddLoaders + Initialize loads every loader again (Ioc.Placeholder.Conf / mergeKvs): a second resolution after any sequence of SetConfig / AddLoaders + "
+                   "Initialize / Set is a first resolution under the layers those steps leave (C16_sources_resolve_again_current); after a document that says `key: v` is merged, the lookup of the key and "
+                   "the placeholder answer v - unless the binder holds a map at that path or a Set stands in front (C16_merged_value_seen, C16_added_source_seen, C16_merged_value_replaces) - tied by "
+                   "histories resolve / merge / resolve on configure.Default(), on running Apps and in LazyInit components fetched after the merge.",
         level_note="Modelled, not verified: Go regexp (leftmost-first) for the fixed pattern, strings.Replace/SplitN, viper.Get/AllSettings path lookup, "
                    "strconv2.ParseAny/FormatAny on the default text, json.Marshal and %v of configured values. Defaults that are slice/map literals or numbers "
                    "with more than 15 significant digits are left unmodelled (explicit outcome; such cases are run and judged by the oracles only, and counted).",
@@ -58,6 +63,17 @@ PROP = dict(
              "happens in both runs). The oracle abstains where T' does not exist or is not defined by the library's placeholder grammar: the replacement brings a top-level comma / unbalanced bracket into the value part "
              "(no written tag has that value part), or an expression wrapper lands INSIDE another placeholder's key or default (`${zz:${e}}` with e: \"#{1+2}\": the scanner's placeholders have brace-free contents, the "
              "enclosing text is no placeholder any more and stays - see the assumptions). "
+             "After these (ninth round) n/12 histories of SOURCES (scenario `R <route> …`) on the library's DEFAULT configure (configure.Default(), what app.NewApp() holds; base document as "
+             "SetLoaders(RawLoader) + Initialize): 1-4 tags are resolved by the real processor on fresh properties, then 1-3 steps through the public API of Configure - SetConfig(document), "
+             "AddLoaders(RawLoader(document)) + Initialize() (every loader again), Set(path, value) - then the SAME tags are resolved again. Documents say something at, above, below and beside the keys the tags "
+             "look up (another scalar, a value that carries a placeholder, a map / list / null where the scalar was, a scalar where the section was, the same value again, unrelated keys); half over the designed "
+             "level configurations (a leaf changes, the tag reaches it through values that carry placeholders), a quarter over random trees and grammar tags, a quarter (route z) over the harness's fixed component "
+             "shapes: an App from app.NewApp() starts with an eager and a LazyInit component whose string fields carry the tags (`${region:none}`, `${greeting}` with greeting: \"hello from ${region}\", several "
+             "placeholders in one tag, `${svc.${which}}`, …), the steps are applied to the RUNNING App, the lazy component is fetched with GetComponentByName afterwards; a sixth of the others (route a) also on "
+             "two Apps: the second shares the first one's Configure (the last AddLoaders step is then an option of the later start). The second resolution - direct, of the later App, of the lazy component - must be "
+             "what the harness's own substitution gives under ITS account of the configured values: for a key, the documents that say something at its path in the order they were merged, the last one's value; "
+             "it answers only where every such document holds a scalar or list exactly there, the order of first merging and the order of actual merging agree, and no Set is near the path unless no later source "
+             "touches it (signatures placeholder-merge-stale - the second result is what the FIRST resolution gave - / placeholder-merge-current). "
              "A case is non-trivial when the tag contains a placeholder; distinct = distinct scenario lines",
         trusted_base=COMMON_TB + ["Go regexp, strings.Replace/SplitN, viper v1.19 Get/AllSettings, strconv2 v0.0.2 ParseAny/FormatAny, encoding/json and fmt %v as modelled in "
                                   "Ioc.Placeholder (validated by the correspondence)",
@@ -71,6 +87,8 @@ PROP = dict(
                      "histories: Set is never handed nil (AllSettings - `${}` - rebuilds its answer inside the maps of viper's override layer in Go's map order; with a stored nil the "
                      "answer depends on that order), map values handed to Set have no two keys that differ only in letter case; what a lookup answers BESIDE a path that was set "
                      "(`db.port` through `${db}` after Set(\"db.host\")) follows viper's layering - the model has it, the oracle claims nothing there",
+                     "sources merged after the start: documents have lower-case keys; where a document holds a map or null at a path and another one a scalar there (viper keeps a map against a scalar), "
+                     "where Initialize brings an older document's value back over a later SetConfig, and where a Set and a later source speak about the same path, the model follows viper and the oracle claims nothing",
                      "as written: replacement texts with braces are followed only as whole expression wrappers `#{…}` (brace-free text and placeholders inside) standing OUTSIDE every other placeholder's key and default. "
                      "OBSERVED on the unchanged library and NOT judged: a wrapper inside another placeholder's default or key - `value:\"${zz:${e}}\"` with e: \"#{1+2}\", or written `value:\"${zz:#{1+2}}\"` - hides the enclosing "
                      "placeholder from the scanner `${[^{}]*}`; it is never replaced, the expression inside it is evaluated and a string field receives the text `${zz:3}` (an int field fails), while `value:\"#{1+2}\"` gives 3; "
